@@ -243,7 +243,9 @@ class Walker:
             self.stats["blocks"] += 1
             # loop header handling
             loops = body.loops()
-            if bb in loops:
+            if bb in loops and self._unrolled_loop(fr, body, bb, loops[bb]):
+                pass
+            elif bb in loops:
                 key = (fr.site, body.defp, bb)
                 if bb in fr.headers:
                     self._finish("backedge", None, st, detail=key)
@@ -344,6 +346,34 @@ class Walker:
                 self._finish("diverge", None, st, detail=k)
 
     # ------------------------------------------------------------------ loops
+    def _unrolled_loop(self, fr, body, header, blocks):
+        """a `for` loop whose iterator is a literal array's IntoIter: `next(&mut it)` in the loop with `it` holding a
+        known element list.  Such a loop is walked iteration by iteration with concrete elements."""
+        for b in blocks:
+            t = body.blocks[b]["term"]
+            if t["k"] != "call" or not t.get("callee") or t["callee"]["name"] != "next" or t["callee"].get("trait") != "std::iter::Iterator":
+                continue
+            if len(t["args"]) != 1 or t["args"][0]["k"] not in ("move", "copy"):
+                continue
+            # the argument is a fresh `&mut it` temporary assigned in the same block
+            tmp = t["args"][0]["place"]["l"]
+            refs = {s["place"]["l"]: s["rv"]["place"] for s in body.blocks[b]["stmts"]
+                    if s["k"] == "assign" and not s["place"]["p"] and s["rv"]["k"] == "ref"}
+            for _ in range(4):
+                pl = refs.get(tmp)
+                if pl is None:
+                    break
+                if not pl["p"]:
+                    cur = fr.locals.get(pl["l"])
+                    if isinstance(cur, tuple) and cur and cur[0] == "arriter":
+                        return True
+                    break
+                if len(pl["p"]) == 1 and pl["p"][0]["k"] == "deref":
+                    tmp = pl["l"]       # `&mut *r`: a reborrow of r
+                    continue
+                break
+        return False
+
     def _havoc_set(self, body, header):
         key = (body.defp, header)
         if key in self._havoc_cache:
@@ -954,6 +984,52 @@ class Walker:
                     return ("inline", b, args)
         if name == "into_iter" and tr == "std::iter::IntoIterator" and impl_self == "I":
             return ("val", args[0])
+        # --- iteration over an array written out in the function (`for (c, n) in [(a, x), (b, y)] { .. }`,
+        #     `[a, b].into_iter().zip([x, y]).for_each(..)`): the elements are known, the iteration is unrolled
+        if name == "into_iter" and tr == "std::iter::IntoIterator" and isinstance(args[0], tuple) and args[0][0] == "array":
+            return ("val", ("arriter", tuple(args[0][1]), 0))
+        if name == "zip" and tr == "std::iter::Iterator" and len(args) == 2:
+            a, b = _as_arriter(args[0]), _as_arriter(args[1])
+            if a is not None and b is not None:
+                ea, eb = a[1][a[2]:], b[1][b[2]:]
+                n = min(len(ea), len(eb))
+                return ("val", ("arriter", tuple(("tuple", (ea[i], eb[i])) for i in range(n)), 0))
+        if name == "next" and tr == "std::iter::Iterator" and len(args) == 1 and isinstance(args[0], tuple) and args[0][0] == "ref":
+            cur = self._read(st, args[0][1])
+            if isinstance(cur, tuple) and cur and cur[0] == "arriter":
+                OPT = "std::option::Option"
+                if cur[2] < len(cur[1]):
+                    self._write(st, args[0][1], ("arriter", cur[1], cur[2] + 1))
+                    return ("val", agg(OPT, "Some", [("0", cur[1][cur[2]])]))
+                return ("val", agg(OPT, "None", []))
+        if name == "for_each" and tr == "std::iter::Iterator" and len(args) == 2 and _as_arriter(args[0]) is not None \
+                and isinstance(args[0], tuple) and args[0][0] == "arriter":
+            it = args[0]
+            elems = list(it[1][it[2]:])
+            unit = ("tuple", ())
+            if not elems:
+                return ("val", unit)
+            f = args[1]
+
+            def step_post(i):
+                def p(v, st2):
+                    if i + 1 >= len(elems):
+                        return unit
+
+                    def k(st3, fr3, dest3, target3, site3, i=i):
+                        act = self._apply_fn(st3, fr3, f, [elems[i + 1]], step_post(i + 1))
+                        if act is None or act[0] != "inline":
+                            st3.flags.add(("depth", "<for_each closure>"))
+                            self._write(st3, dest3, unit)
+                            st3.bb = target3
+                            return
+                        self._inline(st3, fr3, act[1], act[2], dest3, target3, site3, post=act[3])
+                    return ("__then__", k)
+                p.wants_state = True
+                return p
+            act = self._apply_fn(st, fr, f, [elems[0]], step_post(0))
+            if act is not None and act[0] == "inline":
+                return act
         # --- `?`
         if name == "branch" and tr == "std::ops::Try":
             x = args[0]
@@ -1044,6 +1120,11 @@ class Walker:
             # mem::replace(&mut place, v): stores v, returns what was there
             old = self._read(st, args[0][1])
             self._write(st, args[0][1], args[1])
+            return ("val", old)
+        if cn in ("std::mem::take", "core::mem::take") and len(args) == 1 and isinstance(args[0], tuple) and args[0][0] == "ref":
+            # mem::take(&mut place): leaves Default::default() behind, returns what was there
+            old = self._read(st, args[0][1])
+            self._write(st, args[0][1], ("call", "std::default::Default::default", ()))
             return ("val", old)
         if name in ("from", "into") and len(args) == 1 and "bool" in [g.strip() for g in (callee.get("gargs") or [])] \
                 and any(g.strip() in ("u8", "u16", "u32", "u64", "u128", "usize", "i32", "i64") for g in (callee.get("gargs") or [])):
@@ -1374,6 +1455,16 @@ class Walker:
                 if squash(b.impl_trait).endswith("::" + want + ">") or squash(b.impl_trait).endswith(want + ">"):
                     return b
         return None
+
+
+def _as_arriter(x):
+    """iterator state over a literal array (or the array itself, which is IntoIterator)"""
+    if isinstance(x, tuple) and x:
+        if x[0] == "arriter":
+            return x
+        if x[0] == "array":
+            return ("arriter", tuple(x[1]), 0)
+    return None
 
 
 class _EndPath(Exception):
